@@ -1,4 +1,4 @@
-import Sigc.SlotGLemmasCasc
+import Sigc.SlotGLemmasConn2
 /-!
   The cascades of the `SlotG` model preserve `Inv`, stay inside `Casc`, and leave what they were called for
   without a functor: `destroyRep_spec`, `notifyInv_spec`, `trkNotify_spec`.
@@ -62,22 +62,21 @@ theorem casc_killVar {s s3 : State} (hc : Casc s s3) {v r' : Nat} (ho : Owned s 
     | none =>
       have : (killVar v r' s3).conns c = s3.conns c := by
         unfold killVar weakNotify; simp only [hr, slotg_simp]
-      grind
+      rw [this]; exact h5 c
     | some R' =>
       rw [conns_killVar v r' s3 R' hr]
-      rcases h5 c with h5c | ⟨h5c, w, hw⟩
-      · by_cases hm : c ∈ R'.cbs
-        · simp only [hm, if_true]
-          cases hcc : s3.conns c with
+      by_cases hm : c ∈ R'.cbs
+      · simp only [hm, if_true]
+        rcases h5 c with h5c | ⟨h5c, w, hw⟩ | ⟨h5c, ho'⟩
+        · cases hcc : s3.conns c with
           | none => left; rw [← h5c, hcc]; rfl
           | some o =>
             cases o with
             | none => left; rw [← h5c, hcc]; rfl
-            | some w => right; exact ⟨rfl, w, by rw [← h5c, hcc]⟩
-        · simp only [hm, if_false]; exact .inl h5c
-      · by_cases hm : c ∈ R'.cbs
-        · simp only [hm, if_true, h5c]; right; exact ⟨rfl, w, hw⟩
-        · simp only [hm, if_false]; exact .inr ⟨h5c, w, hw⟩
+            | some w => right; left; exact ⟨rfl, w, by rw [← h5c, hcc]⟩
+        · rw [h5c]; right; left; exact ⟨rfl, w, hw⟩
+        · rw [h5c]; right; right; exact ⟨rfl, ho'⟩
+      · simp only [hm, if_false]; exact h5 c
   · intro t; st_simp; exact h6 t
   · intro t T' x ht hx; st_simp; exact h7 t T' x ht hx
   · intro t T' x ht hx; st_simp; exact h10 t T' x ht hx
@@ -135,6 +134,20 @@ theorem pinned_iff {s : State} (hb : ∀ r R, s.reps r = some R → r < s.nextRe
   · rintro ⟨r, R, fid, hR, hf⟩
     exact ⟨r, R, hR, by simp [Rep.refs, hf]⟩
 
+theorem ownedCBy_iff {s : State} (hb : ∀ r R, s.reps r = some R → r < s.nextRep) (c : Nat) :
+    ownedCBy s c = true ↔ OwnedC s c := by
+  unfold ownedCBy OwnedC
+  rw [anyRep_iff hb]
+  constructor
+  · rintro ⟨r, R, hR, hp⟩
+    unfold Rep.ownsConn at hp
+    split at hp
+    · rename_i f hfn
+      exact ⟨r, R, f, hR, hfn, by simpa using hp⟩
+    · simp at hp
+  · rintro ⟨r, R, f, hR, hf, hfo⟩
+    exact ⟨r, R, hR, by simp [Rep.ownsConn, hf, hfo]⟩
+
 /-! ### `destroyRep` -/
 
 theorem destroyRep_zero (r : Nat) (s : State) : destroyRep 0 r s = { s with err := true } := rfl
@@ -147,7 +160,10 @@ theorem destroyRep_succ (k r : Nat) (s : State) : destroyRep (k + 1) r s =
       | none => s.setRep r (some { R with call := false })
       | some f =>
         match f.owns with
-        | none => dropFn r R f s
+        | none =>
+          (match f.ownsC with
+           | none => dropFn r R f s
+           | some c => if ownedCBy (dropFn r R f s) c then dropFn r R f s else killConn c (dropFn r R f s))
         | some h =>
           if ownedBy (dropFn r R f s) h then dropFn r R f s else
           match (dropFn r R f s).slots h with
@@ -159,11 +175,11 @@ theorem destroyRep_succ (k r : Nat) (s : State) : destroyRep (k + 1) r s =
 
 theorem inv_err {s : State} (h : Inv s) (b : Bool) : Inv { s with err := b } :=
   ⟨h.repAlive, h.repUniq, h.connReg, h.cbsConn, h.regUniq, h.cbsNodup, h.parentOk, h.trkReg, h.trkEnt, h.trkNodup,
-   h.refOk, h.ownOk, h.nestOk, h.anonBound, h.repBound⟩
+   h.refOk, h.ownOk, h.nestOk, h.anonBound, h.repBound, h.regHeld, h.ownCOk⟩
 
 theorem casc_err (s : State) : Casc s { s with err := true } :=
   { nextRep := rfl
-    reps := fun _ X' h => ⟨X', h, .inl rfl, .inl rfl, .inl rfl, rfl⟩
+    reps := fun _ X' h => ⟨X', h, .inl rfl, .inl rfl, .inl rfl, fun _ hc => hc⟩
     slots := fun _ _ h => h
     slotsKeep := fun _ _ => rfl
     conns := fun _ => .inl rfl
@@ -205,7 +221,7 @@ theorem destroyRep_spec : ∀ (k r : Nat) (s : State), Inv s →
       cases hf : R.fn with
       | none =>
         simp only []
-        refine ⟨casc_setRep_same hr (.inr rfl) (.inl rfl) (.inl (by simp [hf])) rfl, fun _ =>
+        refine ⟨casc_setRep_same hr (.inr rfl) (.inl rfl) (.inl (by simp [hf])) (fun _ hc => hc), fun _ =>
           ⟨inv_setRep_same h hr rfl (by simp [hf]) rfl, ?_⟩⟩
         intro R' h'
         simp only [reps_setRep, if_true, Option.some.injEq] at h'
@@ -216,7 +232,22 @@ theorem destroyRep_spec : ∀ (k r : Nat) (s : State), Inv s →
         have hC2 : Casc s (dropFn r R f s) := casc_dropFn hr h.trkNodup
         have hP2 : ∀ R', (dropFn r R f s).reps r = some R' → R'.fn = none := fun R' => dropFn_self R'
         cases ho : f.owns with
-        | none => exact ⟨hC2, fun _ => ⟨hI2, hP2⟩⟩
+        | none =>
+          simp only []
+          cases hoc : f.ownsC with
+          | none => exact ⟨hC2, fun _ => ⟨hI2, hP2⟩⟩
+          | some c =>
+            simp only []
+            have hOwnC : OwnedC s c := ⟨r, R, f, hr, hf, hoc⟩
+            by_cases hob : ownedCBy (dropFn r R f s) c = true
+            · rw [if_pos hob]; exact ⟨hC2, fun _ => ⟨hI2, hP2⟩⟩
+            · rw [if_neg hob]
+              have hNO2 : ¬ OwnedC (dropFn r R f s) c := fun hh =>
+                hob ((ownedCBy_iff hI2.repBound c).mpr hh)
+              refine ⟨casc_killConn hC2 hOwnC, fun _ => ⟨inv_killConn hI2 hNO2, ?_⟩⟩
+              intro R' h'
+              obtain ⟨X, hX, -, -, hfn, -⟩ := reps_killConn_of c _ r R' h'
+              rw [hfn]; exact hP2 X hX
         | some hv =>
           simp only []
           -- `f` is an owning functor for `hv`
@@ -279,6 +310,7 @@ theorem err_unbindFun (r : Nat) (f : Fun) (s : State) : (unbindFun r f s).err = 
     | none => rfl
     | some t => exact err_trkRemove t r s
   | nest fid v d => exact err_unsetParentIf v r s
+  | ownc fid c => rfl
 
 theorem err_dropFn (r : Nat) (R : Rep) (f : Fun) (s : State) : (dropFn r R f s).err = s.err := by
   unfold dropFn; rw [err_modRep, err_unbindFun, err_setRep]
@@ -296,7 +328,11 @@ theorem destroyRep_err_true : ∀ (k r : Nat) (s : State), s.err = true → (des
       · simpa [err_setRep] using he
       · have h2 : (dropFn r ‹Rep› ‹Fun› s).err = true := by rw [err_dropFn]; exact he
         split
-        · exact h2
+        · split
+          · exact h2
+          · split
+            · exact h2
+            · rw [err_killConn]; exact h2
         · split
           · exact h2
           · split
